@@ -55,6 +55,11 @@ C11Clauses(p, S, sol) ==
                    /\ ts.et = <<ts.end * p.delta_time[1]>>>> }
         : t \in Tasks(p) }
   \cup
+  { <<"R11_assignment_interval_is_the_one_the_requirement_implies:" \o p.workers[p.uses[u].worker].name \o "/" \o p.tasks[p.uses[u].task].name,
+      LET t == p.uses[u].task IN
+      IF p.uses[u].dynamic THEN S.s[t] <= S.bs[u] /\ S.bs[u] <= S.be[u] /\ S.be[u] <= S.e[t]
+      ELSE S.bs[u] = S.s[t] + p.uses[u].delay_in /\ S.be[u] = S.e[t] - p.uses[u].early_out>> : u \in UsedUses(p, S) }
+  \cup
   { <<"R11_resources_under_their_own_name", { sol.resources[i].name : i \in 1..Len(sol.resources) } = ResNames(p)
                                               /\ Len(sol.resources) = Cardinality(ResNames(p))>> }
   \cup
@@ -89,6 +94,7 @@ C16Clauses(sol, ex) ==
     <<"R16_json_buffers", ex.json.buffers = sol.buffers>>,
     <<"R16_json_indicators", ex.json.indicators = sol.indicators>>,
     <<"R16_json_horizon", ex.json.horizon = sol.horizon>>,
+    <<"R16_json_compact_is_the_same_document", Len(ex.json_compact_diff) = 0>>,
     <<"R16_csv_rows", ex.csv = TaskRows(sol)>>,
     <<"R16_dataframe_rows", ex.df = TaskRows(sol)>>,
     <<"R16_xlsx_resource_names", ex.xlsx.resource_names = [i \in 1..Len(sol.resources) |-> sol.resources[i].name]>>,
@@ -118,11 +124,14 @@ BufferSegments(b, horizon) ==
   IN  [i \in 1..Len(b.levels) |-> <<xs[i], xs[i + 1], b.levels[i]>>]
 
 C17Clauses(sol, g) ==
-  { <<"R17_resource_rows", Len(sol.resources) > 0 => g.res.ylabels = [i \in 1..Len(sol.resources) |-> sol.resources[i].name]>>,
-    <<"R17_resource_bars", Len(sol.resources) > 0 => BagOf(g.res.bars) = BagOf(ResourceBars(sol))>>,
+  { <<"R17_resource_rows", g.res.ylabels = (IF Len(sol.resources) > 0 THEN [i \in 1..Len(sol.resources) |-> sol.resources[i].name]
+                                                 \* no resource at all: the chart falls back to the task view
+                                                 ELSE [i \in 1..Len(SchedTasks(sol)) |-> SchedTasks(sol)[i].name])>>,
+    <<"R17_resource_bars", BagOf(g.res.bars) = BagOf(IF Len(sol.resources) > 0 THEN ResourceBars(sol) ELSE TaskBars(sol))>>,
     <<"R17_task_rows", g.task.ylabels = [i \in 1..Len(SchedTasks(sol)) |-> SchedTasks(sol)[i].name]>>,
     <<"R17_task_bars", BagOf(g.task.bars) = BagOf(TaskBars(sol))>>,
-    <<"R17_buffer_steps", \A i \in 1..Len(sol.buffers) :
+    <<"R17_buffer_steps", Len(g.buffers) = Len(sol.buffers) /\ \A i \in 1..Len(sol.buffers) :
           g.buffers[i] = BufferSegments(sol.buffers[i], sol.horizon)>>,
+    <<"R17_nothing_else_on_the_gantt_axes", g.res.extra_lines = 0 /\ g.task.extra_lines = 0>>,
     <<"R17_buffer_count", Len(g.buffers) = Len(sol.buffers)>> }
 =============================================================================
